@@ -1062,3 +1062,79 @@ Proof.
     assert (Hs : with_lph s (LDelay d) = s) by (destruct s; cbn in *; subst; reflexivity).
     rewrite Hs. reflexivity.
 Qed.
+
+(* a delay that was cut short by a cancel request is never followed by another attempt *)
+Definition cut_inv (y : lsys) : Prop :=
+  (l_ph (y_s y) = LAwaitStart -> y_t y = lt0 /\ y_log y = []) /\
+  forall k dl un run, In (RDelay k dl un run true) (y_log y) ->
+                      l_k (y_s y) = k /\ lt_cancel (y_t y) = true.
+
+Lemma cut_inv_step unicast tbl c y e y' :
+  cut_inv y -> lsys_step unicast tbl c y e = LOk y' -> cut_inv y'.
+Proof.
+  intros [Hs0 Hc] Hstep.
+  destruct (lsys_step_fields tbl unicast c y e y' Hstep)
+    as (Hok & o & Hl & Ht & _ & _ & _ & _ & Hlog).
+  cbv zeta in Ht, Hlog.
+  assert (Hstart : l_ph (y_s y') = LAwaitStart -> l_ph (y_s y) = LAwaitStart /\ y_s y' = y_s y).
+  { intros Hp'. unfold lstep in Hl. destruct (l_ph (y_s y)) as [|u|d| | |] eqn:Hp.
+    - destruct e as [ue| |[]]; injection Hl as Hs _; rewrite <- Hs in Hp' |- *;
+        try (split; reflexivity); discriminate.
+    - exfalso. destruct e as [ue| |a]; try (injection Hl as Hs _; congruence).
+      destruct (ustep tbl (lc_unit c) u ue) as [[u' outs]|]; [|discriminate].
+      destruct (ph u'); try (injection Hl as Hs _; rewrite <- Hs in Hp'; discriminate).
+      destruct (finish_attempt c (y_s y) u') as [r|] eqn:Hf; cbn [obind] in Hl; [|discriminate].
+      injection Hl as Hs _. rewrite <- Hs in Hp'. apply (proj2 (finish_attempt_k c (y_s y) u' r Hf)). exact Hp'.
+    - exfalso. destruct (devent_of e); [|injection Hl as Hs _; congruence].
+      destruct (dstep tbl d d0) as [[d' outs]|]; [|discriminate].
+      destruct (d_done d'); injection Hl as Hs _; rewrite <- Hs in Hp'; discriminate.
+    - exfalso. destruct e as [ue| |[]]; injection Hl as Hs _; rewrite <- Hs in Hp'; try congruence; discriminate.
+    - exfalso. injection Hl as Hs _. congruence.
+    - exfalso. injection Hl as Hs _. congruence. }
+  split.
+  - intros Hp'. destruct (Hstart Hp') as [Hp Hs]. destruct (Hs0 Hp) as [Ht0 Hl0].
+    rewrite Hlog, Hs, same_state_log. split; [|exact Hl0]. rewrite Ht.
+    destruct e as [[| | | | | |r]| |]; try exact Ht0.
+    cbn [lenv_ok] in Hok. unfold consuming in Hok. rewrite Hp in Hok. discriminate.
+  - intros k dl un run Hin.
+    (* either an old entry, or the one just added *)
+    assert (Hcases : In (RDelay k dl un run true) (y_log y) \/
+                     (exists d r, l_ph (y_s y) = LDelay d /\ e = LU (Req r) /\ is_cancel_req r = true /\
+                                  k = l_k (y_s y))).
+    { rewrite Hlog in Hin. unfold log_step in Hin.
+      destruct (l_ph (y_s y)) as [|u|d| | |] eqn:Hp; try (left; exact Hin).
+      - destruct (l_ph (y_s y')); try (left; exact Hin);
+          destruct (l_done (y_s y')); try (left; exact Hin);
+          destruct Hin as [H|H]; try discriminate; left; exact H.
+      - destruct (l_ph (y_s y')); try (left; exact Hin);
+          (destruct Hin as [H|H]; [|left; exact H]);
+          injection H as Hk _ _ _ Hcut; right;
+          destruct e as [[| | | | | |r]| |]; try discriminate;
+          exists d, r; repeat split; auto. }
+    destruct Hcases as [Hold|(d & r & Hp & -> & Hcr & ->)].
+    + destruct (Hc k dl un run Hold) as [Hk Hcan].
+      assert (Hns : l_ph (y_s y) <> LAwaitStart).
+      { intros Hp. destruct (Hs0 Hp) as [_ Hl0]. rewrite Hl0 in Hold. destruct Hold. }
+      destruct (cancel_freezes_attempts unicast tbl c y e y' Hstep Hcan Hns) as (Hk' & Hc' & _).
+      split; [congruence|exact Hc'].
+    + split.
+      * unfold lstep in Hl. rewrite Hp in Hl. cbn [devent_of] in Hl.
+        destruct (dstep tbl d (DReq r)) as [[d' outs]|]; [|discriminate].
+        destruct (d_done d'); injection Hl as Hs _; rewrite <- Hs; reflexivity.
+      * rewrite Ht. cbn [lenv_next lt_cancel]. rewrite Hcr. apply Bool.orb_true_r.
+Qed.
+
+Theorem cut_short_no_retry unicast tbl c : forall es y,
+  lsys_run unicast tbl c (lsys0 c) es = LOk y ->
+  forall k dl un run, In (RDelay k dl un run true) (y_log y) ->
+                      l_k (y_s y) = k /\ lt_cancel (y_t y) = true.
+Proof.
+  intros es y H.
+  assert (G : forall es y0 y1, cut_inv y0 -> lsys_run unicast tbl c y0 es = LOk y1 -> cut_inv y1).
+  { clear. induction es as [|e es IH]; intros y0 y1 Hi H; cbn [lsys_run] in H.
+    - injection H as <-. exact Hi.
+    - destruct (lsys_step unicast tbl c y0 e) as [y2| |] eqn:E; try discriminate.
+      eapply IH; [|exact H]. eapply cut_inv_step; eassumption. }
+  apply (G es (lsys0 c) y); [|exact H].
+  split; [intros _; split; reflexivity|intros k dl un run []].
+Qed.
